@@ -332,10 +332,15 @@ def run(rep, tier, seed):
                     sig_of=lambda rec, cl: "C05:judge:%s%s:%s" % (rec["op"], ":index-object" if rec.get("idxrep") else "",
                                                                    "+".join(cl)),
                     heap="8g" if tier == "quick" else "24g")
+        # the repository's own tests as a driver: every TraitList mutation they make, judged by the same specification
+        from .. import suite_phase
+        ns = suite_phase.run(rep, "C05", "list", tier,
+                             sig_of=lambda rec, cl: "C05:suite:%s:%s" % (rec["op"], "+".join(cl)))
         rep.rule = ("cases = every (initial list, validator, operation, arguments) state enumerated by TLC from "
                     "TraitListMC (%s), each executed on a real TraitList and on a builtin list, plus %d seeded "
                     "history steps on lists up to length ~12; every record judged by TLC (Trace_TraitList): "
-                    "outcome, exception class, return value, event law" % (cfg, len(hl)))
+                    "outcome, exception class, return value, event law; plus %d TraitList operations recorded while the "
+                    "repository's own tests ran, judged by the same judge" % (cfg, len(hl), ns))
         rep.exhaustive = True
         rep.extra["cases_from_tlc_dump"] = tot["ncases"]
         rep.extra["history_steps"] = len(hl)
